@@ -126,9 +126,28 @@ def run_out(ctx, R, F):
             pl = operand_place(b, d0[2]['args'][0])
             idx_bases = set(s['lhs']['l'] for bb, s, c in stores if c is None and bb in mreach and s['lhs']['p'][-1][0] in ('index', 'cidx'))
             src_it = describe(b, d0[2]['args'][0], depth=3, at=sk[0][0]).replace('&', '')
+            def storage(p0):
+                """the place a reference-typed local / place finally borrows (through moves and reborrows)"""
+                cur = p0
+                for _ in range(8):
+                    if cur['p'] and not (len(cur['p']) == 1 and cur['p'][0][0] == 'deref'):
+                        return cur['s'] if cur['p'][-1][0] != 'deref' else cur['s']
+                    d_ = b.single_def(cur['l'])
+                    if not d_ or d_[0] != 'stmt':
+                        return cur['s']
+                    rv_ = d_[3]['rv']
+                    if rv_['k'] == 'use' and 'pl' in rv_['op']:
+                        cur = rv_['op']['pl']
+                    elif rv_['k'] in ('ref', 'rawptr'):
+                        cur = rv_['pl']
+                    else:
+                        return cur['s']
+                return cur['s']
             for ch in idx_bases:
                 src_ch = describe(b, {'k': 'copy', 'pl': {'l': ch, 'p': []}}, depth=3, at=sk[0][0]).replace('&', '')
                 if src_ch == src_it or (pl is not None and pl['l'] == ch):
+                    oks = True
+                if not oks and pl is not None and storage(pl).strip('(*)') == storage({'l': ch, 'p': [], 's': '_%d' % ch}).strip('(*)'):
                     oks = True
                 d1 = b.single_def(ch)
                 if not oks and pl is not None and d1 and d1[0] == 'stmt' and d1[3]['rv']['k'] == 'use' and 'pl' in d1[3]['rv']['op']:
